@@ -16,6 +16,8 @@
 #ifndef ROMEA_CORE_COMMON__CONTAINERS__GRID__WRAPPABLEGRID_HPP_
 #define ROMEA_CORE_COMMON__CONTAINERS__GRID__WRAPPABLEGRID_HPP_
 
+#include <algorithm>
+
 #include "romea_core_common/containers/grid/Grid.hpp"
 
 namespace romea
@@ -124,147 +126,41 @@ void WrappableGrid<T, DIM>::translate(
   const CellIndexesOffset & indexOffset,
   const T & emptyValue)
 {
-  // TODO(JEAN) utiliser constexpr if
-  if (DIM == 2) {
-    CellIndexes cellIndexes;
-    size_t & xIndex = cellIndexes[0];
-    size_t & yIndex = cellIndexes[1];
-
-    const int & indexOffsetAlongXAxis = indexOffset[0];
-    const int & indexOffsetAlongYAxis = indexOffset[1];
-
-    const size_t & numberOfCellsAlongXAxis = this->numberOfCellsAlongAxes_[0];
-    const size_t & numberOfCellsAlongYAxis = this->numberOfCellsAlongAxes_[1];
-
-    const size_t & numberOfCellsAlongXAxisMinusOne = numberOfCellsAlongAxesMinusOne_[0];
-    const size_t & numberOfCellsAlongYAxisMinusOne = numberOfCellsAlongAxesMinusOne_[1];
-
-
-    // translation along X
-    if (indexOffsetAlongXAxis) {
-      for (yIndex = 0; yIndex < numberOfCellsAlongYAxis; yIndex++) {
-        xIndex = indexOffsetsAlongAxes_[0];
-        for (int xOffset = 0; xOffset < indexOffsetAlongXAxis; xOffset++) {
-          this->buffer_[computeCellLinearIndex_(cellIndexes)] = emptyValue;
-          xIndex = (xIndex + 1) % numberOfCellsAlongXAxis;
-        }
-
-        xIndex = indexOffsetsAlongAxes_[0];
-        for (int xOffset = 0; xOffset > indexOffsetAlongXAxis; xOffset--) {
-          xIndex = (xIndex + numberOfCellsAlongXAxisMinusOne) % numberOfCellsAlongXAxis;
-          this->buffer_[computeCellLinearIndex_(cellIndexes)] = emptyValue;
-        }
-      }
-      indexOffsetsAlongAxes_[0] = (numberOfCellsAlongXAxis + indexOffsetAlongXAxis) %
-        numberOfCellsAlongXAxis;
+  // The grid is a window sliding over an unbounded map: after the translation the cell of logical
+  // index i holds what the cell of logical index i + indexOffset held, or emptyValue if that cell
+  // was outside the window. Axes are processed one after the other: the slabs leaving the window
+  // are blanked (their storage is reused by the entering cells), then the offset is accumulated.
+  for (size_t axis = 0; axis < DIM; ++axis) {
+    const long long int numberOfCells = static_cast<long long int>(this->numberOfCellsAlongAxes_[axis]);
+    const long long int offset = indexOffset[axis];
+    if (offset == 0) {
+      continue;
     }
 
-    // translation along Y
-    if (indexOffsetAlongYAxis) {
-      yIndex = indexOffsetsAlongAxes_[1];
-      for (int yOffset = 0; yOffset < indexOffsetAlongYAxis; yOffset++) {
-        for (xIndex = 0; xIndex < numberOfCellsAlongXAxis; xIndex++) {
-          this->buffer_[computeCellLinearIndex_(cellIndexes)] = emptyValue;
+    const long long int numberOfSlabs = std::min(offset > 0 ? offset : -offset, numberOfCells);
+    const size_t firstSlab = offset > 0 ? 0 : static_cast<size_t>(numberOfCells - numberOfSlabs);
+    const size_t lastSlab = firstSlab + static_cast<size_t>(numberOfSlabs);
+
+    CellIndexes cellIndexes = CellIndexes::Zero();
+    cellIndexes[axis] = firstSlab;
+    for (bool done = false; !done; ) {
+      this->buffer_[computeCellLinearIndex_(cellIndexes)] = emptyValue;
+      size_t a = 0;
+      for (; a < DIM; ++a) {
+        const size_t begin = (a == axis) ? firstSlab : 0;
+        const size_t end = (a == axis) ? lastSlab : this->numberOfCellsAlongAxes_[a];
+        if (++cellIndexes[a] < end) {
+          break;
         }
-        yIndex = (yIndex + 1) % numberOfCellsAlongYAxis;
+        cellIndexes[a] = begin;
       }
-
-      for (int yOffset = 0; yOffset > indexOffsetAlongYAxis; yOffset--) {
-        yIndex = (yIndex + numberOfCellsAlongYAxisMinusOne) % numberOfCellsAlongYAxis;
-        for (xIndex = 0; xIndex < numberOfCellsAlongXAxis; xIndex++) {
-          this->buffer_[computeCellLinearIndex_(cellIndexes)] = emptyValue;
-        }
-      }
-
-      indexOffsetsAlongAxes_[1] = (numberOfCellsAlongYAxis + indexOffsetAlongYAxis) %
-        numberOfCellsAlongYAxis;
-    }
-  } else {
-    CellIndexes cellIndexes;
-    size_t & xIndex = cellIndexes[0];
-    size_t & yIndex = cellIndexes[1];
-    size_t & zIndex = cellIndexes[2];
-
-    const int & indexOffsetAlongXAxis = indexOffset[0];
-    const int & indexOffsetAlongYAxis = indexOffset[1];
-    const int & indexOffsetAlongZAxis = indexOffset[2];
-
-    const size_t & numberOfCellsAlongXAxis = this->numberOfCellsAlongAxes_[0];
-    const size_t & numberOfCellsAlongYAxis = this->numberOfCellsAlongAxes_[1];
-    const size_t & numberOfCellsAlongZAxis = this->numberOfCellsAlongAxes_[2];
-
-    const size_t & numberOfCellsAlongXAxisMinusOne = numberOfCellsAlongAxesMinusOne_[0];
-    const size_t & numberOfCellsAlongYAxisMinusOne = numberOfCellsAlongAxesMinusOne_[1];
-    const size_t & numberOfCellsAlongZAxisMinusOne = numberOfCellsAlongAxesMinusOne_[2];
-
-    // translation along X
-    if (indexOffsetAlongXAxis) {
-      for (zIndex = 0; zIndex < numberOfCellsAlongZAxis; zIndex++) {
-        for (yIndex = 0; yIndex < numberOfCellsAlongYAxis; yIndex++) {
-          xIndex = indexOffsetsAlongAxes_[0];
-          for (int xOffset = 0; xOffset < indexOffsetAlongXAxis; xOffset++) {
-            this->buffer_[computeCellLinearIndex_(cellIndexes)] = emptyValue;
-            xIndex = (xIndex + 1) % numberOfCellsAlongXAxis;
-          }
-
-          for (int xOffset = 0; xOffset > indexOffsetAlongXAxis; xOffset--) {
-            xIndex = (xIndex + numberOfCellsAlongXAxisMinusOne) % numberOfCellsAlongXAxis;
-            this->buffer_[computeCellLinearIndex_(cellIndexes)] = emptyValue;
-          }
-        }
-      }
-      indexOffsetsAlongAxes_[0] = (numberOfCellsAlongXAxis + indexOffsetAlongXAxis) %
-        numberOfCellsAlongXAxis;
+      done = (a == DIM);
     }
 
-    // translation along Y
-    if (indexOffsetAlongYAxis) {
-      for (zIndex = 0; zIndex < numberOfCellsAlongZAxis; zIndex++) {
-        yIndex = indexOffsetsAlongAxes_[1];
-        for (int yOffset = 0; yOffset < indexOffsetAlongYAxis; yOffset++) {
-          for (xIndex = 0; xIndex < numberOfCellsAlongXAxis; xIndex++) {
-            this->buffer_[computeCellLinearIndex_(cellIndexes)] = emptyValue;
-          }
-          yIndex = (yIndex + 1) % numberOfCellsAlongYAxis;
-        }
-
-
-        for (int yOffset = 0; yOffset > indexOffsetAlongYAxis; yOffset--) {
-          yIndex = (yIndex + numberOfCellsAlongYAxisMinusOne) % numberOfCellsAlongYAxis;
-          for (xIndex = 0; xIndex < numberOfCellsAlongXAxis; xIndex++) {
-            this->buffer_[computeCellLinearIndex_(cellIndexes)] = emptyValue;
-          }
-        }
-      }
-      indexOffsetsAlongAxes_[1] = (numberOfCellsAlongYAxis + indexOffsetAlongYAxis) %
-        numberOfCellsAlongYAxis;
-    }
-
-    // translation along Z
-    if (indexOffsetAlongZAxis) {
-      zIndex = indexOffsetsAlongAxes_[2];
-
-      for (int zOffset = 0; zOffset < indexOffsetAlongZAxis; zOffset++) {
-        for (yIndex = 0; yIndex < numberOfCellsAlongYAxis; yIndex++) {
-          for (xIndex = 0; xIndex < numberOfCellsAlongXAxis; xIndex++) {
-            this->buffer_[computeCellLinearIndex_(cellIndexes)] = emptyValue;
-          }
-        }
-        zIndex = (zIndex + 1) % numberOfCellsAlongZAxis;
-      }
-
-      for (int zOffset = 0; zOffset < indexOffsetAlongZAxis; zOffset++) {
-        zIndex = (zIndex + numberOfCellsAlongZAxisMinusOne) % numberOfCellsAlongZAxis;
-
-        for (yIndex = 0; yIndex < numberOfCellsAlongYAxis; yIndex++) {
-          for (xIndex = 0; xIndex < numberOfCellsAlongXAxis; xIndex++) {
-            this->buffer_[computeCellLinearIndex_(cellIndexes)] = emptyValue;
-          }
-        }
-      }
-      indexOffsetsAlongAxes_[2] = (numberOfCellsAlongZAxis + indexOffsetAlongZAxis) %
-        numberOfCellsAlongZAxis;
-    }
+    const long long int wrappedOffset = ((offset % numberOfCells) + numberOfCells) % numberOfCells;
+    indexOffsetsAlongAxes_[axis] =
+      (indexOffsetsAlongAxes_[axis] + static_cast<size_t>(wrappedOffset)) %
+      this->numberOfCellsAlongAxes_[axis];
   }
 }
 
